@@ -10,6 +10,7 @@ ENGINES = [
     {"name": "E6", "path": "bppverif/e6.py", "serves_properties": ["C15"], "kind_free_text": "cache-invalidation completeness: interprocedural summaries of dependency writes and invalidations over the CFG"},
     {"name": "E8", "path": "bppverif/c18.py", "serves_properties": ["C18", "C09"], "kind_free_text": "kind / polarity typing of arguments (sampler conventions, strict vs inclusive flags)"},
     {"name": "E4", "path": "bppverif/c16.py", "serves_properties": ["C16", "C12", "C03"], "kind_free_text": "typestate over the CFG: npos discipline, acquire/release pairing, fresh-object retargeting"},
+    {"name": "E7", "path": "bppverif/c11.py", "serves_properties": ["C11"], "kind_free_text": "formula agreement of sibling members by computer algebra (sympy from the tooling venv; re-execs under python3-vt)"},
     {"name": "E5", "path": "bppverif/c02.py", "serves_properties": ["C02"], "kind_free_text": "sibling / table agreement: validation loop vs apply loop, copy vs share functions"},
 ]
 
@@ -104,6 +105,15 @@ CLAIMED["C14"] = dict(
     level=("Static rules decide for every history: the node/edge tables never gain phantom entries through an unguarded operator[] read; unlink mirrors link for undirected graphs; every deletion reaches the observer "
            "notification; an object forgotten by an observer is forgotten in every map; observer assignment clears, unsubscribes and re-subscribes; paired inverse maps are written consistently (copy constructors included)."),
     note=TB + "Not decided: agreement with a reference multigraph over histories, iterator contents vs list queries, unchecked find() results on absent ids in protected members (undefined behaviour tolerated by libstdc++).")
+
+CLAIMED["C11"] = dict(
+    engine="E7+E3+E1",
+    technique="static analysis: sibling closed-form members extracted per guard valuation from the syntax tree and compared with a computer-algebra normaliser (inverse / derivative pairs, witness point required to refute); finite case analysis of init_ over the 8 bound configurations; chain-rule shape; must-pass forwarding",
+    level=("Static comparison of sibling formulas decides, for every value in each guard region: the half-line and interval transforms invert (unit scale for the half-line formula) and their first/second derivative "
+           "members are the derivatives of the back-transform; the wrappers' derivative accessors have the chain-rule shape; each of the eight bound configurations gets exactly one transform of the right kind, "
+           "orientation and inward-nudged bounds; fireParameterChanged syncs every coordinate, setParameters always forwards, getValue delegates, the constructor leaves the wrapped function untouched. "
+           "Borderline for this family (syntax trees compared with an algebraic equality test); no path enumeration, no solver, nothing is executed."),
+    note=TB + "sympy (tooling venv) is the equality test; atan(tan(u)) = u is applied on the principal branch (assumption). Not decided: rounding near bounds (TINY nudges), numerical monotonicity, half-line continuity at non-unit scale.")
 
 NOT_APPLICABLE = {
     "C06": ("every clause is a floating-point identity of the JAMA QL/QR iterations (A.V = V.D within k.eps, ordering, trace/determinant); correctness lies in rotation coefficients and "
